@@ -103,6 +103,37 @@ def spell(rnd, s):
     return out
 
 
+def spell_plain(rnd):
+    """(string, spelling) with no escape at all: plain words separated by blanks and tabs, some items (one or more words) wholly
+    quoted with either kind of quote, the others bare — the spellings a person writes, and the ones a fast path would serve"""
+    words = [rnd.choice(['web', 'front', 'end', 'a', '-c', 'exit', '0', 'k=v', "it's", 'x"y', 'é', '%h']) for _ in range(rnd.randint(1, 5))]
+    seps = [rnd.choice([' ', ' ', '\t', '  ', '\t\t', ' \t']) for _ in range(len(words) - 1)]
+    s, sp, i = '', '', 0
+    while i < len(words):
+        j = i + 1
+        while j < len(words) and rnd.random() < 0.3:
+            j += 1
+        item = words[i]
+        for k in range(i + 1, j):
+            item += seps[k - 1] + words[k]
+        q = rnd.choice(['"', "'", '', '']) if j == i + 1 else rnd.choice(['"', "'"])
+        if q and q in item:
+            q = '"' if q == "'" else "'"
+        if q and q in item:
+            q = ''
+            j = i + 1
+            item = words[i]
+        if not q and (item[0] in '"\'' ):
+            q = '"' if item[0] == "'" else "'"
+        s += item
+        sp += q + item + q
+        if j < len(words):
+            s += seps[j - 1]
+            sp += seps[j - 1]
+        i = j
+    return s, sp
+
+
 def targets(ctx):
     rnd = ctx.rnd
     out = list(gen.exhaustive(gen.ALPHA_SMALL, 3))
@@ -261,8 +292,14 @@ def oracle(ctx):
             sp_ = spell(rnd, s_)
             if sp_ == sp_.strip() and '\n' not in sp_:
                 sel_all.append((s_, sp_))
+    plain = [spell_plain(rnd) for _ in range(1200 if ctx.thorough else 300)]
+    plain = [p for p in plain if p[1] == p[1].strip()]
+    # (checked against the specification reader first: a bare word with a quote inside, or a quote that opens mid-item, must mean what I think)
+    chk = ctx.model(['unquote\t' + hx(sp_) for _, sp_ in plain])
+    sel_all += [p for p, b in zip(plain, chk) if b == 'ok ' + hx(p[0])]
+    res.notes.append(f'plain spellings (no escapes; blanks and tabs between items): {sum(1 for p, b in zip(plain, chk) if b == "ok " + hx(p[0]))} of {len(plain)} generated')
     n_sel = 1500 if ctx.thorough else 400
-    sel = sel_all[:n_sel // 2] + rnd.sample(sel_all[n_sel // 2:], min(len(sel_all) - n_sel // 2, n_sel // 2)) + sel_all[-36:]
+    sel = sel_all[:n_sel // 2] + rnd.sample(sel_all[n_sel // 2:], min(len(sel_all) - n_sel // 2, n_sel // 2)) + sel_all[-len(plain) - 36:]
     ops = []
     for s, sp in sel:
         ops.append('unit\tload\t' + hx(f'[Container]\nImage={sp}\n') + '\tlookup\t' + hx('Container') + '\t' + hx('Image')
